@@ -791,6 +791,12 @@ func scenarios() [][]op {
 			{K: "ResetGroup", M: 0}, {K: "UpdFinish", M: 0}, {K: "State", M: 0},
 			{K: "Elect", M: 1}, {K: "Sync", M: 1}, {K: "Set", M: 1, TS: far(), Rel: "one-hour-ahead"}, {K: "Gen", M: 1, Count: 1}, {K: "ResetGroup", M: 1},
 			{K: "Elect", M: 0}, {K: "State", M: 0}, {K: "Gen", M: 0, Count: 1}, {K: "Read"}},
+		// a window save that takes longer than the save interval (slow but successful): the memory moves to the time the
+		// save was decided for, not to a later reading of the clock - what is granted next lies below the window written
+		{{K: "Elect", M: 0}, {K: "Sync", M: 0}, {K: "Gen", M: 0, Count: 1}, {K: "Sleep", Us: 6000}, {K: "UpdBegin", M: 0}, {K: "Sleep", Us: 16000},
+			{K: "UpdEnd", M: 0}, {K: "State", M: 0}, {K: "Gen", M: 0, Count: 1}, {K: "Read"}, {K: "State", M: 0},
+			{K: "Sleep", Us: 6000}, {K: "UpdBegin", M: 0}, {K: "Sleep", Us: 11000}, {K: "UpdEnd", M: 0}, {K: "Gen", M: 0, Count: 3}, {K: "Read"},
+			{K: "ResetGroup", M: 0}, {K: "Elect", M: 1}, {K: "Sync", M: 1}, {K: "Gen", M: 1, Count: 1}, {K: "Read"}},
 		// physical time ahead of the wall clock (after a reset into the future) and the logical part used up tick after
 		// tick: the "prevPhysical + 1ms" branch of UpdateTimestamp must extend the window from `next`, not from the clock
 		func() []op {
@@ -1231,6 +1237,80 @@ func reelectedDuringSaveProbe(e *etcdx.Etcd, admin *clientv3.Client, root string
 			R.Violate(prop+":granted-timestamp-not-below-stored-window:re-elected-while-a-window-write-was-in-flight",
 				fmt.Sprintf("after that history term 2 granted physical %d ms while the stored window is %d ns", g.Physical, *w2),
 				map[string]interface{}{"granted_physical_ms": g.Physical, "window_ns": *w2})
+			return
+		}
+	}
+}
+
+// readBackFaultProbe: two faults at particular points. A reset ten minutes ahead is applied by etcd but reported as failed
+// (the answer is lost): the window in etcd is now far ahead of the one the allocator remembers. When the periodic update
+// reaches the edge of the remembered window it has to read the stored window back first; that read fails (reads fail, writes
+// work). The update must give up (the daemon then resets the allocator, as updateAllocator does here) - it must not decide
+// about its save against the stale memory, which would write a smaller window over the larger one.
+func readBackFaultProbe(e *etcdx.Etcd, admin *clientv3.Client, root string, R *res.Result, prop string) {
+	w := &world{e: e, admin: admin, root: root}
+	defer e.CloseFrom(e.Mark())
+	var keep *etcdx.KeepCtl
+	w.newClient = func() (*clientv3.Client, *etcdx.CtlKV, error) {
+		cli, ctl, k, err := e.NewClientKeep()
+		keep = k
+		return cli, ctl, err
+	}
+	w.mems = append(w.mems, w.newMember(0))
+	a := w.mems[0]
+	defer func() { keep.FailRanges(0); a.ctl.SetNext(etcdx.Pass); a.am.ResetAllocatorGroup(tso.GlobalDCLocation) }()
+	if err := a.m.CampaignLeader(60); err != nil {
+		return
+	}
+	if err := a.alloc.Initialize(0); err != nil {
+		return
+	}
+	if _, err := a.alloc.GenerateTSO(1); err != nil {
+		return
+	}
+	a.ctl.Filter = func(ops []clientv3.Op) bool {
+		for _, o := range ops {
+			if o.IsPut() && strings.HasSuffix(string(o.KeyBytes()), "/timestamp") {
+				return true
+			}
+		}
+		return false
+	}
+	defer func() { a.ctl.Filter = nil }()
+	a.ctl.SetNext(etcdx.FailAfter)
+	if err := a.alloc.SetTSO(compose(time.Now().UnixNano()/1e6+600*1000, 0)); err == nil {
+		return // the reset was acknowledged: not the history this probe is about
+	}
+	w1 := w.window()
+	R.Count("read-back-fault:probed")
+	var w2 *int64
+	for round := 0; round < 6; round++ {
+		time.Sleep(saveInterval) // the remembered window is used up: the next update has to save
+		keep.FailRanges(3)
+		err := w.safe("UpdateTSO", a.alloc.UpdateTSO)
+		keep.FailRanges(0)
+		w2 = w.window()
+		if w1 != nil && w2 != nil && *w2 < *w1 {
+			R.Violate(prop+":stored-window-decreased:read-back-failed-after-a-lost-answer",
+				fmt.Sprintf("a reset ten minutes ahead was applied by etcd (window %d) but reported as failed; the next update's read of the stored window failed; the update stored %d over it", *w1, *w2),
+				map[string]interface{}{"window_after_lost_answer": *w1, "window_after_update": *w2,
+					"scenario": "Elect; Sync; Gen; SetTSO(+10min) applied, answer lost; sleep; UpdateTSO while reads of the window fail"})
+			return
+		}
+		if err != nil {
+			R.Count("read-back-fault:update-gave-up")
+			a.am.ResetAllocatorGroup(tso.GlobalDCLocation) // updateAllocator
+			a.m.ResetLeader()
+			if err := a.m.CampaignLeader(60); err != nil {
+				return
+			}
+			if err := a.alloc.Initialize(0); err != nil {
+				return
+			}
+			if w3 := w.window(); w1 != nil && w3 != nil && *w3 < *w1 {
+				R.Violate(prop+":stored-window-decreased:read-back-failed-after-a-lost-answer",
+					fmt.Sprintf("... the member was elected again and stored %d over the window %d", *w3, *w1), nil)
+			}
 			return
 		}
 	}
@@ -1853,6 +1933,7 @@ func main() {
 				overflowRace(e, admin, "/c01/overflow", R, *prop)
 				delayedWindowWriteProbe(e, admin, "/c01/delayed/r", R, *prop)
 				reelectedDuringSaveProbe(e, admin, "/c01/reelected/r", R, *prop)
+				readBackFaultProbe(e, admin, "/c01/readback/r", R, *prop)
 				if c, ok := updateReadRaceCase(e, admin, "/c01/updread/r"); ok {
 					results = append(results, &c)
 					R.Count("update-read-race:case")
